@@ -310,6 +310,15 @@ pub struct PtSpec {
     /// (up to 999): packets beyond 254 bytes take the extended APDU header.
     #[serde(default)]
     pub long_status_text: u16,
+    /// After a negative acknowledgement (fault kinds Nack / BadBody at an acknowledgement point) the
+    /// terminal is idle again and serves further commands on that connection.
+    #[serde(default)]
+    pub nack_keeps_connection: bool,
+    /// The registration completion names this currency (BMP 49) instead of the one registered with.
+    /// Runs with it are judged on one thing only: whatever requests go out carry the *configured*
+    /// currency (a client that refuses such a terminal sends none, which is fine).
+    #[serde(default)]
+    pub registration_currency: Option<u16>,
 }
 
 // ---------------------------------------------------------------- state
@@ -353,6 +362,9 @@ pub struct ReqLog {
     /// Did the exchange end with a completion?
     pub completed: Option<bool>,
     pub dangling_reported: Option<u16>,
+    /// Further receipts the answer to the pending query listed in its TLV container (tag 23 / 08):
+    /// a client may reverse them too (nothing demands it).
+    pub listed_reported: Vec<u16>,
     /// Result code of the abort packet that ended this exchange (as scripted).
     pub abort_sent: Option<u8>,
     /// 06 50 only: dangling pre-authorisations still open in the ledger when it arrived.
@@ -944,8 +956,9 @@ impl PtConn {
         match pkt.cf {
             (0x06, 0x00) => {
                 let tid = pt.spec.terminal_id.parse::<u64>().unwrap_or(0);
-                // (a terminal that books in a currency of its own says so here, too)
-                let cur = pt.spec.status_currency.map(|c| c as u64).or(pkt_currency(pkt));
+                // (only where the plan says so does the registration completion name another currency than
+                // the one the client registered with: a client may refuse such a terminal altogether)
+                let cur = pt.spec.registration_currency.map(|c| c as u64).or(pkt_currency(pkt));
                 out.push(plain(rc::completion_with(Some(0x10), Some(tid), cur)));
             }
             (0x0f, 0xa1) => {
@@ -1232,6 +1245,7 @@ impl PtConn {
                                     },
                                 );
                                 listed = Some((r, r2));
+                                pt.requests[req].listed_reported = vec![r, r2];
                             }
                             rc::AbortExtra::Receipt(r)
                         }
@@ -1372,7 +1386,13 @@ impl PtConn {
         if first {
             let ack = rest.pop_front().unwrap();
             if !self.emit(io, &ack, during, true) {
-                self.st = St::Dead;
+                // a negative acknowledgement ends the exchange at protocol level: where the plan says so the
+                // terminal is simply idle again afterwards (a client may go on with the connection)
+                let nack_only = {
+                    let pt = self.pt.lock().unwrap();
+                    pt.spec.nack_keeps_connection && pt.fired.last().map(|f| f.conn == self.conn && f.at_ack && matches!(f.kind, FaultKind::Nack(_) | FaultKind::BadBody)).unwrap_or(false)
+                };
+                self.st = if nack_only { St::Idle } else { St::Dead };
                 return;
             }
             if ack.frame != rc::ACK {
@@ -1450,6 +1470,7 @@ impl Terminal for PtConn {
                     status_sent: None,
                     completed: None,
                     dangling_reported: None,
+                    listed_reported: vec![],
                     abort_sent: None,
                     open_dangling_at_arrival: vec![],
                     handshake: false,
@@ -1520,6 +1541,7 @@ impl Terminal for PtConn {
                     status_sent: None,
                     completed: None,
                     dangling_reported: None,
+                    listed_reported: vec![],
                     abort_sent: None,
                     open_dangling_at_arrival: vec![],
                     handshake: false,
